@@ -12,6 +12,7 @@ import Crs.Renumber
 import Crs.Copyright
 import Crs.Update
 import Crs.Assemble
+import Crs.Path
 namespace Crs.Cli
 open Crs Crs.Format
 
@@ -358,8 +359,7 @@ structure RunResult where
 def noExt (name : Bytes) : Bool := !((splitCh '/' name).getLast?.getD []).contains '.'
 
 /-- `regex format ARG [--check]`: a rule argument addresses its assembly file, anything else is the name of an include
-    file (`.ra` added when the argument has no extension at all). `none`: an argument with a path separator (the
-    cleaning of `path.Join` is not modelled). -/
+    file (`.ra` added when the argument has no extension at all). -/
 def formatPathOf (arg : Bytes) : Bytes :=
   let filename := if noExt arg then arg ++ b!".ra" else arg
   match Update.parseRuleId filename with
@@ -374,8 +374,18 @@ def formatAt (check github : Bool) (lint : Bytes → Bool) (t : Tree) (p : Bytes
     if !parseable b then ⟨false, t, []⟩
     else ⟨(formatOne check (lint p) b).2, setFile p (formatOne check (lint p) b).1 t, formatOneOut check github (lint p) (baseName p) b⟩
 
+/-- the file a format argument addresses, relative to the root: `path.Join` cleans the path (an argument may carry
+    separators, `.` and `..`) -/
+def formatTarget (arg : Bytes) : Bytes := Path.clean (formatPathOf arg)
+
+/-- `regex format ARG [--check]`: only a `.ra` file below regex-assembly is ever opened; an argument that resolves to
+    anything else is refused (D29). `none`: the cleaned path climbs above the root — whether it comes back into the
+    tree depends on the names of the directories above, which the model does not know. -/
 def formatCmd (check github : Bool) (lint : Bytes → Bool) (t : Tree) (arg : Bytes) : Option RunResult :=
-  if arg.contains '/' then none else some (formatAt check github lint t (formatPathOf arg))
+  let p := formatTarget arg
+  if p == b!".." || hasPrefix b!"../" p then none
+  else if isFormatTarget p then some (formatAt check github lint t p)
+  else some ⟨false, t, []⟩
 
 /-- `path.Ext` removed: the name up to the last dot of its last path element (the whole name when that has no dot) -/
 def stripExt (name : Bytes) : Bytes :=
